@@ -535,9 +535,16 @@ class Scene(Geometry3D):
         # get the area of every geometry that has an area property
         areas = {n: g.area for n, g in self.geometry.items() if hasattr(g, "area")}
         # sum the area including instancing
-        return sum(
-            (areas.get(self.graph[n][1], 0.0) for n in self.graph.nodes_geometry), 0.0
-        )
+        graph = self.graph
+        total = 0.0
+        for node in graph.nodes_geometry:
+            transform, name = graph[node]
+            if name not in areas:
+                continue
+            # an instance placed with linear scale `s` has `s ** 2` times the area
+            scale = np.cbrt(np.abs(np.linalg.det(transform[:3, :3])))
+            total += areas[name] * scale**2
+        return total
 
     @caching.cache_decorator
     def volume(self) -> float64:
@@ -552,10 +559,16 @@ class Scene(Geometry3D):
         """
         # get the area of every geometry that has a volume attribute
         volume = {n: g.volume for n, g in self.geometry.items() if hasattr(g, "area")}
-        # sum the area including instancing
-        return sum(
-            (volume.get(self.graph[n][1], 0.0) for n in self.graph.nodes_geometry), 0.0
-        )
+        # sum the volume including instancing
+        graph = self.graph
+        total = 0.0
+        for node in graph.nodes_geometry:
+            transform, name = graph[node]
+            if name not in volume:
+                continue
+            # the volume of a placed instance is scaled by the determinant
+            total += volume[name] * np.abs(np.linalg.det(transform[:3, :3]))
+        return total
 
     @caching.cache_decorator
     def triangles(self) -> NDArray[float64]:
